@@ -492,6 +492,26 @@ def _param_pos_sorted(ctx, f, pname, coord_text):
         if not good:
             return False, ("caller %s passes pos=%s without a bisect_left "
                            "search for the inserted coordinate" % (caller.key, a.id))
+        # the search is relative to the carried position (coords[pos:]): it is
+        # only the sorted position while pos never overtakes the elements --
+        # every deletion from the coordinate list must take the position back
+        from ..cfg import parent_block
+        for d in caller.own_nodes():
+            if isinstance(d, ast.Delete) and any(
+                    isinstance(t, ast.Subscript) and
+                    text(t.value).replace(" ", "") == "%s.coords" % recv
+                    for t in d.targets):
+                blk = parent_block(d)[0]
+                back = [x for x in blk if isinstance(x, ast.AugAssign)
+                        and isinstance(x.op, ast.Sub) and text(x.target) == a.id
+                        and text(x.value) == "1"]
+                if len(back) != 1:
+                    return False, (
+                        "caller %s deletes an element of %s.coords but does not "
+                        "take the carried position `%s` back by one in the same "
+                        "(unconditional) step: the next relative bisect search "
+                        "starts beyond the sorted position and the following "
+                        "insertion lands out of order" % (caller.key, recv, a.id))
     if checked == 0:
         return True, "no caller passes an explicit position"
     return True, "callers compute the position by bisect_left"
